@@ -122,6 +122,8 @@ pub use raw::{
     KeysLRUIter, KeysMRUIter, LRUIter, LRUIterMut, MRUIter, MRUIterMut, RawLRU, ValuesLRUIter,
     ValuesLRUIterMut, ValuesMRUIter, ValuesMRUIterMut,
 };
+#[cfg(feature = "verif-hooks")]
+pub use raw::VerifAudit;
 pub use segmented::{SegmentedCache, SegmentedCacheBuilder};
 pub use two_queue::{
     TwoQueueCache, TwoQueueCacheBuilder, DEFAULT_2Q_GHOST_RATIO, DEFAULT_2Q_RECENT_RATIO,
